@@ -483,6 +483,7 @@ type turn struct {
 	server []spkt
 	label  string
 	close  bool // server closes after reading the client's packets (COM_QUIT)
+	op     int  // index of the command in the case, -1 = connection phase
 }
 
 func (c MyCase) effCaps() uint32 { return c.ClientCaps & c.ServerCaps }
@@ -771,12 +772,15 @@ func (c MyCase) script(w *world) []turn {
 			turn{label: "auth-pubkey-request", client: []spkt{{seq: 3, payload: []byte{2}, label: "auth-pubkey-request"}}, server: []spkt{{seq: 4, payload: append([]byte{1}, c.Auth.Server.Bytes()...), label: "auth-more-data"}}},
 			turn{label: "auth-encrypted-password", client: []spkt{{seq: 5, payload: c.Auth.Resp.Bytes(), label: "auth-encrypted-password"}}, server: []spkt{{seq: 6, payload: okp, label: "auth-ok"}}})
 	}
+	for i := range turns {
+		turns[i].op = -1
+	}
 	stmtIDs := map[int]uint32{}
 	stmtCols := map[int][]MyCol{}
 	nextID := uint32(1)
 	for i, op := range c.Ops {
 		tag := op.Kind + ":"
-		tn := turn{label: op.Kind}
+		tn := turn{label: op.Kind, op: i}
 		var cmd []byte
 		cl := spkt{label: "com-" + op.Kind}
 		switch op.Kind {
@@ -890,7 +894,7 @@ func (c MyCase) script(w *world) []turn {
 			add(append([]byte{0xfb}, "f.csv"...), "local-infile-request")
 			turns = append(turns, tn)
 			// the client uploads the file (one data packet unless it is empty) and an empty packet; the server answers OK
-			up := turn{label: "local-infile-upload"}
+			up := turn{label: "local-infile-upload", op: i}
 			s := seq
 			if op.Resp.File.N > 0 {
 				up.client = append(up.client, spkt{seq: s, payload: op.Resp.File.Bytes(), label: "local-infile-data"})
@@ -911,6 +915,7 @@ func (c MyCase) script(w *world) []turn {
 type myRun struct {
 	clientSent, clientRecv, dbRecv, dbSent []byte
 	stage                                  string // label of the turn/packet where the client stopped, "" = played to the end
+	stageOp                                int
 	err                                    error
 	dbErr                                  error
 	panics                                 []string
@@ -990,13 +995,13 @@ play:
 	for _, tn := range turns {
 		if len(tn.client) > 0 {
 			if err := s.SendRaw(frames(tn.client)); err != nil {
-				r.stage, r.err = tn.client[0].label, err
+				r.stage, r.stageOp, r.err = tn.client[0].label, tn.op, err
 				break
 			}
 		}
 		for _, p := range tn.server {
 			if _, err := s.ReadPacket(); err != nil {
-				r.stage, r.err = p.label, err
+				r.stage, r.stageOp, r.err = p.label, tn.op, err
 				break play
 			}
 		}
@@ -1088,8 +1093,23 @@ const sigEmptyInt = "malformed-row:binary:empty-in-integer-column"
 const sigExecNoTypes = "handler-panic:mysql.(*QueryDataEncryptor).encryptValuesWithPlaceholders"
 
 // CheckMy plays the case and applies the oracles. It returns the violations, the classes seen and whether the
-// case was non-trivial.
+// case was non-trivial. A violation of the rewrite layer is confirmed by playing the case once more: the proxy's two
+// goroutines share the response handler without synchronisation (see TestMySQLBackToBack), which makes a result set
+// pass unprocessed now and then; such an unstable verdict is noted and counted, not reported here.
 func CheckMy(c MyCase) (hx.Vs, []string, bool) {
+	vs, cl, nt := checkMyOnce(c)
+	if len(vs) > 0 && c.Schema != nil && !strings.HasPrefix(vs[0].Sig, "harness:") {
+		vs2, cl2, nt2 := checkMyOnce(c)
+		if len(vs2) == 0 || vs2[0].Sig != vs[0].Sig {
+			R.Note("unstable verdict: first run %s (%s), second run %d violation(s)", vs[0].Sig, vs[0].Msg, len(vs2))
+			R.Class("TestMySQLRewrite", "unstable-verdict")
+			return vs2, cl2, nt2
+		}
+	}
+	return vs, cl, nt
+}
+
+func checkMyOnce(c MyCase) (hx.Vs, []string, bool) {
 	var vs hx.Vs
 	cl := classSet{}
 	w := fix.TheWorld()
@@ -1188,17 +1208,89 @@ func CheckMy(c MyCase) (hx.Vs, []string, bool) {
 		nontrivial = c.compareRewrite(&vs, cl, r, toDB, toClient, broken)
 	}
 	if broken && len(vs) == 0 {
+		where := r.stage
+		if shape := c.breakShape(r.stageOp); shape != "" {
+			where = shape
+		}
 		switch {
 		case errors.Is(r.err, mysess.ErrTimeout):
-			vs.Add("stalled:"+baseLabel(r.stage), "the client never received packet %s (two runs, deadline %v); proxy errors: %v", r.stage, 3*timeout, r.proxyErrs)
+			vs.Add("stalled:"+where, "the client never received packet %s (two runs, deadline %v); proxy errors: %v", r.stage, 3*timeout, r.proxyErrs)
 		default:
-			vs.Add("session-closed:"+baseLabel(r.stage), "the proxy closed the session at %s: %v; proxy errors: %v", r.stage, r.err, r.proxyErrs)
+			vs.Add("session-closed:"+where, "the proxy closed the session at %s: %v; proxy errors: %v", r.stage, r.err, r.proxyErrs)
 		}
 	}
 	if os.Getenv("VERIF_DEBUG") != "" {
 		fmt.Printf("run: stage=%q err=%v dbErr=%v proxyErrs=%v sent=%d/%d recv=%d/%d\n", r.stage, r.err, r.dbErr, r.proxyErrs, len(r.clientSent), len(r.dbRecv), len(r.dbSent), len(r.clientRecv))
 	}
 	return vs, cl.list(), nontrivial
+}
+
+// breakShape names the rare input shape present where a session broke (the signature names the class of input,
+// not the packet at which the loss became visible); "" = nothing special, the stage label is used.
+func (c MyCase) breakShape(opIdx int) string {
+	switch low := byte(c.ClientCaps); low {
+	case mysess.ComQuit, mysess.ComQuery, mysess.ComStmtPrepare, mysess.ComStmtExecute, mysess.ComStmtReset:
+		return fmt.Sprintf("handshake-response-starts-with-command-byte-0x%02x", low)
+	}
+	if c.Auth.Kind == "switch" {
+		if c.Auth.Resp.N == 0 {
+			return "auth-switch-response:empty"
+		}
+		switch first := c.Auth.Resp.Bytes()[0]; first {
+		case mysess.ComQuit, mysess.ComQuery, mysess.ComStmtPrepare, mysess.ComStmtExecute, mysess.ComStmtReset:
+			return fmt.Sprintf("auth-switch-response-starts-with-command-byte-0x%02x", first)
+		}
+	}
+	if c.Auth.Kind == "full" {
+		switch first := c.Auth.Resp.Bytes()[0]; first {
+		case mysess.ComQuit, mysess.ComQuery, mysess.ComStmtPrepare, mysess.ComStmtExecute, mysess.ComStmtReset:
+			return fmt.Sprintf("auth-data-starts-with-command-byte-0x%02x", first)
+		}
+	}
+	if opIdx < 0 || opIdx >= len(c.Ops) {
+		return ""
+	}
+	op := c.Ops[opIdx]
+	caps := c.effCaps()
+	proto := "text"
+	if op.Kind == "execute" {
+		proto = "binary"
+	}
+	switch op.Resp.Kind {
+	case "localinfile":
+		return "query:local-infile-request"
+	case "stat", "eof":
+		for _, prev := range c.Ops[:opIdx] {
+			if prev.Kind == "prepare" && prev.Resp.Kind == "prepok" {
+				return op.Kind + ":after-unexecuted-prepare"
+			}
+		}
+	}
+	if (op.Kind == "ping" || op.Kind == "initdb" || op.Kind == "resetconn") && opIdx > 0 && c.Ops[opIdx-1].Kind == "prepare" && c.Ops[opIdx-1].Resp.Kind == "prepok" && caps&mysess.CapDeprecateEOF != 0 {
+		return op.Kind + ":after-unexecuted-prepare:deprecate-eof"
+	}
+	for _, s := range op.Resp.Sets {
+		cols := s.Cols
+		if cols == nil && op.Kind == "execute" && op.Stmt < len(c.Ops) {
+			cols = c.Ops[op.Stmt].Resp.Cols
+		}
+		switch {
+		case len(cols) > 250:
+			return proto + "-resultset:more-than-250-columns"
+		case s.ErrEnd:
+			return proto + "-resultset:err-ends-rows"
+		case caps&mysess.CapDeprecateEOF != 0 && len(s.End.encode(0xfe, caps)) >= 9:
+			return proto + "-resultset:ok-with-info-ends-rows"
+		}
+		if proto == "binary" {
+			for _, col := range cols {
+				if mysess.BinaryWidth(col.Type) == -1 && col.Type == mysess.TypeJSON {
+					return "binary-resultset:json-column"
+				}
+			}
+		}
+	}
+	return ""
 }
 
 func (c MyCase) classes(cl classSet) {
